@@ -353,3 +353,39 @@ Theorem C15_kernel_taxa_calls :
    /\ k_incorp_pass = [("method", "super(DenseBreedingValueMatrix, self).incorp_taxa"); ("obj", "obj"); ("values", "values"); ("taxa", "taxa"); ("taxa_grp", "taxa_grp"); ("**", "kwargs")]).
 Proof. exact (conj calls_uniform (conj builds_kernel inplace_kernel)). Qed.
 Print Assumptions C15_kernel_taxa_calls.
+
+(** * Label keywords of insert_taxa / adjoin_taxa / append_taxa / incorp_taxa (taxa= / taxa_grp= given explicitly or omitted, in any
+    combination; [with_kw] / [op_with_kw] replace the keywords of an operand / of an operation): what the operand contributes is
+    values.unscale() — its raw values as soon as its parameters pass the run-time check — whichever keywords accompany it; two calls
+    that differ only in the keywords and both succeed yield the same stored columns, locations, scales and number of taxa; and
+    omitting the keywords with a matrix operand is exactly handing over the operand's own labels (the explicit ones override them) *)
+Theorem C15_label_keywords_do_not_touch_values :
+  (forall (v : operand) (kt kg : option (list Z)), opd_unscaled (with_kw v kt kg) = opd_unscaled v
+     /\ (opd_params_ok v = true -> cols_eq (opd_unscaled (with_kw v kt kg)) (opd_raw v)))
+  /\ (forall (b : bv) (o : op) (p : list prm) (kt kg : option (list Z)) (b1 b2 : bv),
+        step b o p = Some b1 -> step b (op_with_kw o kt kg) p = Some b2 -> bcols b1 = bcols b2 /\ bn b1 = bn b2)
+  /\ (forall (b : bv) (o : op) (p : list prm) (v : operand), op_operand o = Some v -> o_bv v <> None ->
+        step b (op_with_kw o None None) p = step b (op_with_kw o (o_vtaxa v) (o_vgrp v)) p).
+Proof.
+  exact (conj (fun v kt kg => conj (opd_unscaled_kw v kt kg) (opd_unscaled_kw_raw v kt kg))
+        (conj (fun b o p kt kg b1 b2 => step_values_kw_independent b o p kt kg b1 b2) step_kw_default)).
+Qed.
+Print Assumptions C15_label_keywords_do_not_touch_values.
+
+(** non-vacuity: a grouped matrix of two taxa (raw values 1, 3), an operand matrix on another scale (1034, 1290: location 1162,
+    scale 128) with labels of its own, incorporated at position 1 without keywords and with both keywords: both calls succeed, the
+    labels differ as the keywords say, the values are the operand's raw values in both *)
+Example C15_label_keywords_hyps_satisfiable :
+  let b := mkbv [mkcol [Some (-1); Some 1] (Some 2) (Some 1)] 2 (Some [0%Z; 1%Z]) (Some [0%Z; 1%Z]) in
+  let v := mkopd [[Some 1034; Some 1290]] 2 (Some [(Some 1162, Some 128)]) true (Some [2%Z; 3%Z]) (Some [2%Z; 2%Z]) None None in
+  let p := [(Some 582, Some 580)] in
+  opd_params_ok v = true /\ o_bv v <> None /\ op_operand (OIncorp (IInt 1) v) = Some v
+  /\ exists b1 b2, step b (OIncorp (IInt 1) v) p = Some b1
+       /\ step b (op_with_kw (OIncorp (IInt 1) v) (Some [8%Z; 9%Z]) (Some [3%Z; 3%Z])) p = Some b2
+       /\ btaxa b1 = Some [0%Z; 2%Z; 3%Z; 1%Z] /\ btaxa b2 = Some [0%Z; 8%Z; 9%Z; 1%Z] /\ bgrp b2 = Some [0%Z; 3%Z; 3%Z; 1%Z]
+       /\ map col_unscale (bcols b2) = [[Some 1; Some 1034; Some 1290; Some 3]].
+Proof.
+  cbv zeta. split; [vm_compute; reflexivity|]. split; [discriminate|]. split; [reflexivity|].
+  eexists. eexists. split; [vm_compute; reflexivity|]. split; [vm_compute; reflexivity|].
+  repeat split; vm_compute; reflexivity.
+Qed.
